@@ -3,6 +3,7 @@ use std::path::{Path, PathBuf};
 
 use crate::error::Result;
 
+use super::super::markdown::table_cell;
 use super::super::path::display_path;
 use super::super::trend_formatting::{format_delta, format_trend_header_markdown};
 use super::{ProjectStatistics, StatsFormatter, StatsOutputMode};
@@ -59,8 +60,8 @@ impl StatsFormatter for StatsMarkdownFormatter {
                     writeln!(
                         output,
                         "| `{}` | {} | {} | {} | {} | {} |",
-                        self.display_path(&file.path),
-                        file.language,
+                        table_cell(&self.display_path(&file.path)),
+                        table_cell(&file.language),
                         file.stats.code,
                         file.stats.total,
                         file.stats.comment,
@@ -127,8 +128,8 @@ impl StatsFormatter for StatsMarkdownFormatter {
                     output,
                     "| {} | `{}` | {} | {} |",
                     i + 1,
-                    self.display_path(&file.path),
-                    file.language,
+                    table_cell(&self.display_path(&file.path)),
+                    table_cell(&file.language),
                     file.stats.code
                 )
                 .ok();
@@ -145,7 +146,11 @@ impl StatsFormatter for StatsMarkdownFormatter {
                 writeln!(
                     output,
                     "| {} | {} | {} | {} | {} |",
-                    lang.language, lang.files, lang.code, lang.comment, lang.blank
+                    table_cell(&lang.language),
+                    lang.files,
+                    lang.code,
+                    lang.comment,
+                    lang.blank
                 )
                 .ok();
             }
@@ -160,7 +165,11 @@ impl StatsFormatter for StatsMarkdownFormatter {
                 writeln!(
                     output,
                     "| `{}` | {} | {} | {} | {} |",
-                    dir.directory, dir.files, dir.code, dir.comment, dir.blank
+                    table_cell(&dir.directory),
+                    dir.files,
+                    dir.code,
+                    dir.comment,
+                    dir.blank
                 )
                 .ok();
             }
